@@ -248,7 +248,7 @@ CHECKS = {
              "(variant A) / at the attempt of the next write (variant B), crash point 0, double crashes, plans from TLC "
              "behaviours and seeded random plans on the real ChannelArbitrator + real boltArbitratorLog behind the crashing "
              "kvdb wrapper; after every write the raw contracts bucket, state, resolutions and commit set are read back and "
-             "validated by TLC together with the terminal verdict of each run.",
+             "validated by TLC together with the terminal verdict of each run. Part B, BreachJustice: the real BreachArbitrator and breachResolver on a real RetributionStore / channeldb / boltArbitratorLog with stops at every durable write of Add, MarkChanFullyClosed, Remove, Checkpoint and restarts of both arbiters (RetKept, ResolvedOnlyAfterJustice, ClosedOnlyAfterJustice); part S, SwitchRes: the last leg of 'failed back the same way' - ProcessContractResolution -> resolution-message store -> forwarder -> incoming link, link flaps, Stop/Start with reforwardResolutions on the real Switch (SameWay, NoContradiction, NoLoss).",
         note="one channel, at most one resolver per kind, legacy (non-anchor) second-level paths; quiescence timing-based; "
              "F8, F19 (FCC), F20 (FRACE) repaired; known findings F9 (dust fail-back before the durable close decision) "
              "and H3 (re-inserted resolvers overwrite checkpointed ones) reported as KNOWN-FINDING; thorough adds a -race run",
